@@ -34,7 +34,7 @@ def replica(job):
     """One replica: a history on the lattice engine; returns per-ensemble sums from the files only."""
     conf, seed, nsteps = job
     n = conf["n"]
-    spec = simdrv.lattice_spec(n=n, moves=conf["moves"], workers=conf["W"], steps=nsteps, seed=seed, cap=conf.get("cap"),
+    spec = simdrv.lattice_spec(n=n, moves=conf["moves"], workers=conf["W"], steps=nsteps, seed=seed, cap=conf.get("cap"), origin=conf.get("origin", 0.0),
                                wall=conf.get("wall", -1), n_jumps=conf.get("n_jumps", 2), maxlength=conf.get("maxlength", 2000),
                                delete_old=True, delete_old_all=True)
     # restart plan
@@ -76,13 +76,13 @@ def replica(job):
                 if f > 0 and w > 0:
                     out["den"][k] += f / w
                     out["npaths"][k] += 1
-                    if row["maxop"] > k + 1.5:
+                    if row["maxop"] + conf.get("origin", 0.0) > k + 1.5:
                         out["num"][k] += f / w
                         out["ncross"][k] += 1
         # live paths: fractions from the restart file, order sequence from their stored order.txt
         for pn, fr in cfg["current"]["frac"].items():
             op = os.path.join(d, "load", pn, "order.txt")
-            orders = [float(l.split()[1]) for l in open(op) if not l.startswith("#")]
+            orders = [float(l.split()[1]) + conf.get("origin", 0.0) for l in open(op) if not l.startswith("#")]
             for k in range(n - 1):
                 f = float(fr[k + 1])
                 if f > 0:
@@ -130,6 +130,8 @@ def configs(ctx):
         {"name": "mixed-n5-W2", "n": 5, "moves": ["sh", "sh", "wf", "sh", "wf"], "W": 2, "n_jumps": 3, "policy": "straggler"},
         {"name": "wf-cap-n5-W3-kills", "n": 5, "moves": ["sh", "wf", "wf", "wf", "sh"], "W": 3, "cap": 3.5, "plan": "kill", "nrestarts": 3, "n_jumps": 2, "wall": -2},
         {"name": "shwf-n4-W2-restarts", "n": 4, "moves": ["sh", "sh", "wf", "wf"], "W": 2, "plan": "clean", "nrestarts": 4, "n_jumps": 6, "policy": "newest"},
+        # the same kind of system translated so that the cap sits on 0.0 and the interfaces straddle zero
+        {"name": "wf-cap-at-zero-n5-W2", "n": 5, "moves": ["sh", "sh", "wf", "wf", "sh"], "W": 2, "cap": 3.5, "origin": 3.5, "n_jumps": 2, "plan": "clean", "nrestarts": 2},
     ]
     if ctx.quick:
         return quick
@@ -147,6 +149,7 @@ def configs(ctx):
             if cap > n - 0.5:
                 cap = None
         out.append({"name": f"gen{len(out)}", "n": n, "moves": moves, "W": int(rng.integers(1, n)), "cap": cap,
+                    "origin": float(rng.choice([0.0, 0.0, cap if cap is not None else 0.5, 0.5, float(n)])),
                     "wall": int(rng.choice([-1, -2, -4])), "n_jumps": int(rng.choice([1, 2, 3, 6])),
                     "plan": str(rng.choice(["none", "clean", "kill"])), "nrestarts": int(rng.integers(1, 5)),
                     "policy": str(rng.choice(["random", "oldest", "newest", "straggler"]))})
